@@ -121,6 +121,27 @@ CLAIMED = {
    ref="4/C20", technique="Coq proof (scanner stability + induction over chunks) + exhaustive-cut differential correspondence with a scripted child",
    note="Trusted: Coq kernel; oracle law: frame_end = serde_json value boundary on object replies (tested by every run); reply contents decoded by Python's json as third implementation; "
         "partial: promptness, pipe buffering, reaping and kill-on-drop are OS/tokio behaviour enforced by timeouts."),
+ "C16": dict(
+   text="Coq theorems C16_exit (for every list of per-file results in every completion order, with or without fail-fast and Ctrl-C, the drivers' bookkeeping exits 0 iff no file failed and nothing was cancelled), "
+        "C16_failure_or_interrupt_is_nonzero, C16_junit (the JUnit totals equal the counts of the per-file results and contain one case per file) about the model Cli.v of run_serial/run_parallel's result bookkeeping. "
+        "Correspondence: the real binary with the scripted fake engine over 1..12 files with independently chosen outcomes (pass, failing record, parse error, engine exits, engine never starts, crashing task), serial and -j 1..8, "
+        "varying latencies, with/without --junit and --fail-fast; exit status, status tags, parsed JUnit XML against the ground truth and the model. Known finding D11.",
+   ref="4/C16", technique="Coq proof (induction over per-file results in any order) + differential correspondence with the real binary and a scripted engine",
+   note="Trusted: Coq kernel; partial: that tokio delivers every task completion to the bookkeeping is observed, not proved; the XML layer is parsed by Python's ElementTree."),
+ "C17": dict(
+   text="Coq theorems C17_create_before_use, C17_session_integrity, C17_session_unique, C17_bounded_concurrency, C17_close_before_drop, C17_dropped_exactly_once_unless_kept: every trace accepted by the observer automaton Par.v "
+        "(any length, any interleaving) uses a database only after its CREATE, never shares a session between files, has at most `jobs` files in flight, closes every session of a database before its DROP and drops every created database "
+        "exactly once unless kept. Correspondence: the time-ordered log of the fake engine processes under the real binary with -j 1..8 (2..10 files, named connections, `$__DATABASE__` in every statement, failing/dying engines, "
+        "latency patterns forcing many interleavings, --keep-db-on-failure, long common path prefixes) must be accepted by the extracted automaton and satisfy the clauses evaluated directly; the library's run_parallel is observed too (known finding D10).",
+   ref="4/C17", technique="Coq proof (invariants of an observer automaton over all traces) + trace-acceptance correspondence with the real binary",
+   note="Trusted: Coq kernel; partial: the theorems quantify over all accepted traces; that the tokio scheduler only produces accepted traces is sampled, not proved; ordering by CLOCK_MONOTONIC timestamps of the engine processes."),
+ "C19": dict(
+   text="Coq theorems C19_no_new_work (in every accepted trace a connection after the Cancel event belongs to a file started before it), C19_release (every accepted closed trace has closed every connection it opened), "
+        "C19_exit_nonzero (Ctrl-C at any point or any failure gives a non-zero exit status for every result list), C19_fail_fast_cancels (under fail-fast the first failure sets the token for good), about Par.v and Cli.v. "
+        "Correspondence: the real binary, serial and -j 2..4: the fake engine sends SIGINT to the CLI at its k-th request for every k (thorough) / a spread incl. the CREATE and DROP phases (quick), and --fail-fast with the failing file at every position: "
+        "exit status, no session or SQL after the interrupt, every session reaches EOF, every CREATE has its DROP, JUnit with one case per file, termination, automaton acceptance with the Cancel event.",
+   ref="4/C19", technique="Coq proof (observer automaton with Cancel + bookkeeping model) + signal injection at every request against the real binary",
+   note="Trusted: Coq kernel; partial: signal delivery latency (150 ms allowance inside a 400 ms grace), bounded-time exit (60 s limit) and kill_on_drop are runtime behaviour, observed not proved."),
  "C18": dict(
    text="Coq theorems C18_cover (for ANY hash function and count > 0 every path has exactly one partition id), C18_partition_exact, C18_exactly_one_id (over ids 0..N-1 every file of a glob lies in exactly one selection), "
         "C18_reject (count 0, id >= count, count without id are rejected), C18_single_file_not_filtered, C18_pure. Correspondence: the real binary over random file sets (2..40 names, nested, non-ASCII, overlapping and single-file globs), "
